@@ -151,3 +151,21 @@ Theorem C09_linmag_entry :
             (rmul Op (tf (pl Op ph (q / C) 1) n (q mod C) i j) (tf (pl Op p' (q / C) 1) n (q mod C) i j)).
 Proof. intros. reflexivity. Qed.
 Print Assumptions C09_linmag_entry.
+(* the forward equations assumed by C09_scat_j2_vjp are solvable for every image whose sides are multiples of 8 (non-vacuity) *)
+Theorem C09_scat_j2_forward_total :
+  forall (T:Type) (Op:Ops T) (Rth:RingOk Op) (X:XOps T) (b:T) (L0 L1:Z) (h0 h1:Z->T),
+  1 <= L0 /\ L0 mod 2 = 1 -> 1 <= L1 /\ L1 mod 2 = 1 ->
+  forall (L:Z) (H0A H0B H1A H1B:Z->T), 2 <= L /\ L mod 2 = 0 ->
+  (forall j, 0 <= j < L -> H0B j = H0A (L-1-j)) -> (forall j, 0 <= j < L -> H1B j = H1A (L-1-j)) ->
+  (forall a c:T, rmul Op (radd Op (r1 Op) (r1 Op)) a = rmul Op (radd Op (r1 Op) (r1 Op)) c -> a = c) ->
+  forall (x h:@ten T), 8 <= tH x -> tH x mod 8 = 0 -> 8 <= tW x -> tW x mod 8 = 0 -> 0 < tC x ->
+  tN h = tN x -> tC h = tC x -> tH h = tH x -> tW h = tW x ->
+  exists s0 p1 s0b p2 l3 p3 s0' p1' s0b' p2' l3' p3',
+    fwd_j1 Op (xs_ X) x L0 h0 L1 h1 false M_SYMM = Ok (s0, p1) /\
+    fwd_j2plus Op (xs_ X) s0 L (rev_filt L H0B) (rev_filt L H0A) L (rev_filt L H1B) (rev_filt L H1A) false = Ok (s0b, p2) /\
+    fwd_j1 Op (xs_ X) (force Op (mags Op X b (tC x) p1)) L0 h0 L1 h1 false M_SYMM = Ok (l3, p3) /\
+    fwd_j1 Op (xs_ X) h L0 h0 L1 h1 false M_SYMM = Ok (s0', p1') /\
+    fwd_j2plus Op (xs_ X) s0' L (rev_filt L H0B) (rev_filt L H0A) L (rev_filt L H1B) (rev_filt L H1A) false = Ok (s0b', p2') /\
+    fwd_j1 Op (xs_ X) (linmag Op (tC x) (phases Op X b false (tC x) p1) p1') L0 h0 L1 h1 false M_SYMM = Ok (l3', p3').
+Proof. exact @scat_j2_forward_total. Qed.
+Print Assumptions C09_scat_j2_forward_total.
